@@ -37,7 +37,8 @@ DefaultEn == {d \in FlipAuto : Dev[d].auto}    \* enable_events default: ball_st
 \* ---- the A..I table of flipper.py, and autofire.py ------------------------------------------------------------
 KPER == "pulse_on_hit_and_enable_and_release"
 Rules(d) == LET v == Dev[d] IN
-    IF v.kind = "flipper"
+    IF v.btn = "" THEN {}      \* a flipper without activation switch (driven by sw_flip events only) has no rules
+    ELSE IF v.kind = "flipper"
     THEN (IF v.eos
           THEN (IF v.dual THEN {<<v.btn, v.main, "pulse_on_hit_and_release_and_disable">>,
                                 <<v.eosw, v.main, "pulse_on_hit_and_release_and_disable">>}
@@ -113,7 +114,7 @@ Enable(d) == /\ d \in cfg.active /\ Dev[d].swap = "" /\ Req /\ Same
              /\ act' = [op |-> "enable", d |-> d]
 Disable(d) == /\ d \in cfg.active /\ Req /\ Same /\ s' = DoDisable(S0, {d}) /\ act' = [op |-> "disable", d |-> d]
 \* one event that is a disable event of a and an enable event of b (a, b share button and coil): disable runs first
-Swap(a, b) == /\ a \in cfg.active /\ b \in cfg.active /\ Dev[a].swap = b /\ InPlay /\ s.en[a] /\ Req /\ Same
+Swap(a, b) == /\ a \in cfg.active /\ b \in cfg.active /\ Dev[a].swap = b /\ phase = "ballLive" /\ s.en[a] /\ Req /\ Same
               /\ s' = DoEnable(DoDisable(S0, {a}), {b}, now)
               /\ act' = [op |-> "swap", a |-> a, b |-> b]
 SwFlip(f) == /\ f \in cfg.active \cap Flippers /\ Req /\ Same /\ s' = FlipEff(S0, f) /\ act' = [op |-> "flip", d |-> f]
